@@ -275,3 +275,24 @@ def ob_g(ob):
             ob.inconclusive(sl.name)
         else:
             raise HarnessError("crosshair failed on %s:\n%s" % (sl.name, r["raw"][-1000:]))
+
+
+def replay_ksa_kernel(**kw):
+    from . import krylov as K
+
+    return K.replay_kernel(**kw)
+
+
+@obligation(PID, "h", title="Krylov path of the SCF (scf_forward3): one iteration replaces P by P - sum x_q V_q where V spans the Krylov space of the linearised density map started at D - P and x solves the normal equations of min |sum x_q W_q - (D - P)|, W_q = response(V_q) - V_q: the quasi-Newton step on D(P) - P = 0, so a stationary point of the iteration is a self-consistent density — the same one the mixing and DIIS paths converge to — for every residual and every linear response")
+def ob_h(ob):
+    from seqm.seqm_functions import scf_loop as SL
+    from . import krylov as K
+
+    ob.encodes(SL.scf_forward3)
+    ob.bound("one outer iteration (iteration cap 1) from P = 0; max_rank 2 and 3 (thorough: also a batch of 2 molecules at max_rank 2); symmetric matrices confined to a 2x2 block (3-dimensional space: rank 3 is the full space, where the step is the exact Newton step (I - response)^-1 (D - P)); residual: 3 symbolic reals per molecule; response: arbitrary linear map (9 symbolic reals per molecule); err_threshold 0: early exits explored as separate paths")
+    ob.assume("fock_restricted, Fermi_Q, G, Canon_DM_PRT, elec_energy are recorders: Fermi_Q returns the symbolic residual (P = 0), Canon_DM_PRT(G(v)) the symbolic linear map applied to v")
+    ob.assume("torch.inverse(A) is a matrix of fresh unknowns constrained by A X = X A = I (A non-singular is torch's precondition); claims are identities in those unknowns")
+    ob.assume("no breakdown: D != P and every normalisation divides by a non-zero norm")
+    ob.assume("a branch whose feasibility the solver cannot settle within 10 s is explored as feasible (over-approximation)")
+    cfg = [(2, 1), (3, 1)] + ([(2, 2)] if ob.tier == "thorough" else [])
+    K.obligation_body(ob, "ksa", cfg, 30 if ob.tier != "thorough" else 120)
